@@ -41,6 +41,9 @@ type JRef struct {
 	Dir     int    `json:"dir"`
 	HTTP    bool   `json:"http,omitempty"`
 	DelayMs int    `json:"delay_ms,omitempty"` // the server answers this directory's index late
+	// what the server says about the version of the index: "" / "etag" = ETag (derived from the bytes) and Last-Modified,
+	// "lastmod" = Last-Modified only (the file's time, whole seconds), "none" = neither
+	Hdr string `json:"hdr,omitempty"`
 }
 type JWrite struct {
 	Dir   int    `json:"dir"`
@@ -115,6 +118,7 @@ type jserver struct {
 	srv   *httptest.Server
 	mu    sync.Mutex
 	delay map[int]time.Duration
+	hdr   map[int]string
 }
 
 var repoDirRe = regexp.MustCompile(`/repo(\d+)/`)
@@ -129,21 +133,32 @@ func dirOf(s string) int {
 }
 
 func newJServer(root string) *jserver {
-	js := &jserver{delay: map[int]time.Duration{}}
+	js := &jserver{delay: map[int]time.Duration{}, hdr: map[int]string{}}
 	fsrv := http.FileServer(http.Dir(root))
 	js.srv = httptest.NewServer(http.HandlerFunc(func(w http.ResponseWriter, req *http.Request) {
 		js.mu.Lock()
 		d := js.delay[dirOf(req.URL.Path)]
+		mode := js.hdr[dirOf(req.URL.Path)]
 		js.mu.Unlock()
 		if d > 0 {
 			time.Sleep(d)
 		}
 		p := filepath.Join(root, filepath.FromSlash(filepath.Clean("/"+req.URL.Path)))
-		if b, err := os.ReadFile(p); err == nil {
+		b, err := os.ReadFile(p)
+		switch {
+		case err == nil && mode == "none":
+			// neither ETag nor Last-Modified
+			w.Header().Set("Content-Type", "application/gzip")
+			w.Header().Set("Content-Length", strconv.Itoa(len(b)))
+			if req.Method != http.MethodHead {
+				_, _ = w.Write(b)
+			}
+			return
+		case err == nil && mode != "lastmod":
 			s := sha256.Sum256(b)
 			w.Header().Set("ETag", `"`+hex.EncodeToString(s[:8])+`"`)
 		}
-		fsrv.ServeHTTP(w, req)
+		fsrv.ServeHTTP(w, req) // sends Last-Modified = the file's time
 	}))
 	return js
 }
@@ -174,12 +189,16 @@ func (e *jenv) request(root string, js *jserver, g *JGet, noDelay bool) (out jOu
 	if js != nil {
 		js.mu.Lock()
 		js.delay = map[int]time.Duration{}
+		js.hdr = map[int]string{}
 		js.mu.Unlock()
 	}
 	for _, r := range g.Repos {
 		loc := filepath.Join(root, fmt.Sprintf("repo%d", r.Dir))
 		if r.HTTP {
 			loc = js.srv.URL + fmt.Sprintf("/repo%d", r.Dir)
+			js.mu.Lock()
+			js.hdr[r.Dir] = r.Hdr
+			js.mu.Unlock()
 			if !noDelay {
 				js.mu.Lock()
 				js.delay[r.Dir] = time.Duration(r.DelayMs) * time.Millisecond
@@ -263,6 +282,7 @@ func jCorpus() []JScenario {
 	}
 	l := func(pin string, d int) JRef { return JRef{Pin: pin, Dir: d} }
 	h := func(pin string, d int, delay int) JRef { return JRef{Pin: pin, Dir: d, HTTP: true, DelayMs: delay} }
+	hh := func(pin string, d int, hdr string) JRef { return JRef{Pin: pin, Dir: d, HTTP: true, Hdr: hdr} }
 	base10, base11, base12 := p("base", "1.0-r0"), p("base", "1.1-r0"), p("base", "1.2-r0")
 	app, tool := p("app", "2.0-r0", "base"), p("tool", "1.0-r0")
 	return []JScenario{
@@ -299,6 +319,17 @@ func jCorpus() []JScenario {
 			Class: "corpus/rewrite/remote", Events: []JEvent{
 				w(0, 10, base10, app), g("k1", []string{"app"}, h("", 0, 0)), g("k1", []string{"app@r"}, h("r", 0, 0)), w(0, 20, base11, app),
 				g("k1", []string{"app@r"}, h("r", 0, 0)), g("k1", []string{"app"}, h("", 0, 0)), g("unverified", []string{"app"}, l("", 0)), w(0, 30, base10, app), g("k1", []string{"app"}, h("", 0, 0))}},
+		{Note: "a server that sends Last-Modified but NO ETag: the index is re-published INSIDE THE SAME SECOND (file time pinned), then a second later: every request must use the index the server holds then (no ETag: never cached)",
+			Class: "corpus/remote/last-modified-only", Events: []JEvent{
+				w(0, 10, base10, app), g("unverified", []string{"app"}, hh("", 0, "lastmod")), w(0, 10, base11, app), g("unverified", []string{"app"}, hh("", 0, "lastmod")),
+				g("unverified", []string{"base@r"}, hh("r", 0, "lastmod")), w(0, 11, base12, app), g("unverified", []string{"app"}, hh("", 0, "lastmod")),
+				w(0, 11, base10, app), g("k1", []string{"app"}, hh("", 0, "lastmod")), g("unverified", []string{"app"}, hh("", 0, "lastmod"))}},
+		{Note: "a server that sends neither ETag nor Last-Modified, re-published inside one second and across seconds; then the same files through a server with ETags and as local directories",
+			Class: "corpus/remote/no-version-header", Events: []JEvent{
+				w(0, 10, base10, app), w(1, 10, base10, tool), g("unverified", []string{"app", "tool"}, hh("", 0, "none"), hh("", 1, "lastmod")),
+				w(0, 10, base11, app), w(1, 10, base11, tool), g("unverified", []string{"app", "tool"}, hh("", 0, "none"), hh("", 1, "lastmod")),
+				g("unverified", []string{"app", "tool"}, hh("", 0, "etag"), hh("", 1, "none")), w(1, 12, base12, tool),
+				g("unverified", []string{"base"}, hh("", 1, "none"), hh("", 0, "lastmod")), g("unverified", []string{"base"}, hh("", 1, "lastmod"), hh("", 0, "etag"))}},
 		{Note: "the same line twice in one request; the same directory under two pins in one request",
 			Class: "corpus/order/duplicates", Events: []JEvent{
 				w(0, 10, base10, app), g("unverified", []string{"app"}, l("", 0), l("", 0)), g("unverified", []string{"app@b"}, l("a", 0), l("b", 0)),
@@ -345,7 +376,7 @@ func genJScenario(r *gal.Rand) JScenario {
 	}
 	pins := []string{"", "", "p", "q"}
 	ctxs := []string{"unverified", "unverified", "unverified", "k1", "k1", "k12", "k2"}
-	remote := r.Chance(1, 4)
+	remote := r.Chance(1, 3)
 	for n := 5 + r.Intn(5); n > 0; n-- {
 		if r.Chance(1, 3) {
 			write(r.Intn(nd))
@@ -356,6 +387,7 @@ func genJScenario(r *gal.Rand) JScenario {
 			ref := JRef{Pin: gal.Pick(r, pins), Dir: r.Intn(nd)}
 			if remote && r.Chance(1, 2) {
 				ref.HTTP = true
+				ref.Hdr = gal.Pick(r, []string{"etag", "etag", "lastmod", "lastmod", "none"})
 				if len(g.Repos) == 0 && r.Bool() {
 					ref.DelayMs = 50
 				}
@@ -448,7 +480,11 @@ func indexhistStage(out string, seed uint64, tier string) error {
 			ojs.srv.Close()
 			refs := make([]string, len(ev.Get.Repos))
 			for i, rf := range ev.Get.Repos {
-				refs[i] = fmt.Sprintf("{| rr_pin := %s; rr_dir := %d; rr_ctx := %s; rr_http := %s |}", gal.Str(rf.Pin), rf.Dir, gal.Str(ev.Get.Ctx), gal.Bool(rf.HTTP))
+				hdr := rf.Hdr
+				if rf.HTTP && hdr == "" {
+					hdr = "etag"
+				}
+				refs[i] = fmt.Sprintf("{| rr_pin := %s; rr_dir := %d; rr_ctx := %s; rr_http := %s; rr_hdr := %s |}", gal.Str(rf.Pin), rf.Dir, gal.Str(ev.Get.Ctx), gal.Bool(rf.HTTP), gal.Str(hdr))
 			}
 			evs = append(evs, fmt.Sprintf("JGet %s %s %s %s %s", gal.List(refs), gal.StrList(ev.Get.World), galJObs(o), galJRes(o), galJRes(orc)))
 			gets++
